@@ -21,6 +21,9 @@ pub struct CliInput {
     pub run_seed: u64,
     #[serde(default)]
     pub sandbox: Option<String>,
+    /// also run the CLI on this sub-directory of the workspace (its conftest imports a module that lives above it)
+    #[serde(default)]
+    pub subdir: Option<String>,
 }
 
 pub struct Cli;
@@ -128,7 +131,27 @@ impl Scenario for Cli {
         o.venv = rng.chance(350);
         o.colliding_imports = rng.chance(400);
         o.same_file_dups = false;
-        let spec = gen_ws(&mut rng, &o);
+        let mut spec = gen_ws(&mut rng, &o);
+        // a sub-directory whose conftest star-imports a helper module that lives ABOVE it: `fixtures ... <ws>/<dir>` then
+        // reports fixtures from files outside the scanned directory
+        let mut subdir = None;
+        if rng.chance(300) {
+            let dirs: BTreeSet<String> = spec.files.iter().filter(|f| !f.rel.starts_with('.')).filter_map(|f| f.rel.split_once('/').map(|x| x.0.to_string())).collect();
+            let dirs: Vec<String> = dirs.into_iter().collect();
+            if !dirs.is_empty() && spec.file("outer_helpers.py").is_none() {
+                let d = rng.pick(&dirs).clone();
+                use super::pytext::{Fx, Item, PyFile, Tst};
+                spec.files.push(PyFile { rel: "outer_helpers.py".into(), items: vec![Item::Fixture(Fx { func: "outer_only".into(), ..Default::default() }), Item::Fixture(Fx { func: "outer_used".into(), ..Default::default() })] });
+                let star = Item::Star { module: "outer_helpers".into(), target: Some("outer_helpers.py".into()) };
+                let cf = format!("{}/conftest.py", d);
+                match spec.files.iter_mut().find(|f| f.rel == cf) {
+                    Some(f) => f.items.insert(0, star),
+                    None => spec.files.push(PyFile { rel: cf, items: vec![star] }),
+                }
+                spec.files.push(PyFile { rel: format!("{}/test_outer_use.py", d), items: vec![Item::Test(Tst { name: "test_outer".into(), params: vec!["outer_used".into()], ..Default::default() })] });
+                subdir = Some(d);
+            }
+        }
         let r = if tier == Tier::Quick { 3 } else { 6 };
         let mut sims = vec![];
         let mut orders = vec![];
@@ -140,7 +163,7 @@ impl Scenario for Cli {
             rng.shuffle(&mut p);
             orders.push(p);
         }
-        serde_json::to_value(CliInput { spec, sims, orders, run_seed, sandbox: None }).unwrap()
+        serde_json::to_value(CliInput { spec, sims, orders, run_seed, sandbox: None, subdir }).unwrap()
     }
 
     fn exec(&self, input: &Value) -> RunOut {
@@ -293,6 +316,64 @@ impl Scenario for Cli {
                 let al: BTreeSet<_> = all.keys().cloned().collect();
                 if !sk.is_disjoint(&on) || sk.union(&on).cloned().collect::<BTreeSet<_>>() != al {
                     out.violate("cli-filters-do-not-partition", format!("--skip-unused {:?} / --only-unused {:?} / all {:?}", sk, on, al));
+                }
+                // the same commands on a sub-directory: entries of files outside it keep their full path in both formats
+                if let Some(d) = inp.subdir.as_ref().filter(|d| root.join(d).is_dir()) {
+                    let sub = root.join(d);
+                    let (oc2, ref2) = scan_then(&inp.sims[0], None, sub.clone(), |db, sub| {
+                        let mut m: BTreeMap<(String, String), (bool, bool, usize)> = BTreeMap::new();
+                        for d in all_defs(db) {
+                            let n = db.find_references_for_definition(&d).len();
+                            let e = m.entry((rel(sub, &d.file_path), d.name.clone())).or_insert((d.is_third_party, false, 0));
+                            e.1 |= d.autouse;
+                            e.2 += n;
+                        }
+                        m
+                    });
+                    out.absorb_outcome(&oc2);
+                    if let Some(a) = &oc2.abort {
+                        abort_to_violation(&mut out, a, "reference scan of the sub-directory");
+                        return out;
+                    }
+                    let want: BTreeSet<(String, String)> = ref2.unwrap_or_default().iter().filter(|(_, (tp, au, n))| !*tp && !*au && *n == 0).map(|(k, _)| k.clone()).collect();
+                    let substr = sub.to_string_lossy().to_string();
+                    let norm = |f: &str| if Path::new(f).is_absolute() { rel(&sub, Path::new(f)) } else { f.to_string() };
+                    let mut got: Vec<BTreeSet<(String, String)>> = vec![];
+                    for c in [vec!["fixtures", "unused", substr.as_str()], vec!["fixtures", "unused", substr.as_str(), "--format", "json"]] {
+                        match run_child(sim, &c) {
+                            Ok((code, so, se)) => {
+                                out.count("child_processes", 1);
+                                if code == 70 || code == 101 || se.contains("panicked") || se.contains("CHILD-ABORT") {
+                                    out.violate("cli-panic", format!("child {:?} failed: {}", c, super::batch::clip(&se, 600)));
+                                    return out;
+                                }
+                                let entries: BTreeSet<(String, String)> = if c.len() == 3 {
+                                    so.lines().filter_map(|l| l.trim_start().strip_prefix("• ")?.split_once(" in ").map(|(n, f)| (norm(f.trim()), n.trim().to_string()))).collect()
+                                } else {
+                                    serde_json::from_str::<Value>(&so).ok().and_then(|v| v.as_array().cloned()).unwrap_or_default().iter().map(|e| (norm(e["file"].as_str().unwrap_or("")), e["fixture"].as_str().unwrap_or("").to_string())).collect()
+                                };
+                                let want_code = if want.is_empty() { 0 } else { 1 };
+                                if code != want_code {
+                                    out.violate("cli-exit-status", format!("{:?}: exit status {}, expected {} ({} unused)", c, code, want_code, want.len()));
+                                }
+                                got.push(entries);
+                            }
+                            Err(e) => {
+                                out.harness_error = Some(format!("cannot run child: {}", e));
+                                return out;
+                            }
+                        }
+                    }
+                    out.count("probe.subdir_run", 1);
+                    if want.iter().any(|(f, _)| f.starts_with("../")) {
+                        out.count("probe.subdir_unused_outside_scanned_dir", 1);
+                    }
+                    if got[0] != want {
+                        out.violate("cli-unused-disagrees-with-server", format!("`fixtures unused {}` lists {:?}; an index of the same directory has {:?}", d, got[0], want));
+                    }
+                    if got[1] != got[0] {
+                        out.violate("cli-json-differs-from-text", format!("`fixtures unused {}`: json {:?} vs text {:?}", d, got[1], got[0]));
+                    }
                 }
                 first = Some(outs);
             } else if let Some(f) = &first {
